@@ -140,35 +140,51 @@ func concWorkerMain(args []string) {
 	for round := 0; round < rounds; round++ {
 		r := base.fork()
 		c := genStream(pick(r, []string{"wellformed", "prereqs", "bigseg", "segments", "rollouts"}), r.fork(), fmt.Sprintf("C13/%d/%d", seed, round))
+		if round%2 == 1 {
+			c = concOperandScenario(r.fork(), fmt.Sprintf("C13/%d/%d", seed, round))
+		}
 		sanitizeCase(c)
-		st := buildStore(&c.Store)
-		ps := &pureStore{flags: st.flags, segments: st.segments}
-		var options []evaluation.EvaluatorOption
-		if c.BS != nil {
-			options = append(options, evaluation.EvaluatorOptionBigSegmentProvider(mkPureBS(c.BS)))
-		}
-		options = append(options, evaluation.EvaluatorOptionErrorLogger(&lockedLogger{}), evaluation.EvaluatorOptionEnableSecondaryKey(c.Opts.Sec))
-		ev := evaluation.NewEvaluatorWithOptions(ps, options...)
-		// the shared work list: the top flag and every store flag x several contexts
-		flags := []*ldmodel.FeatureFlag{c.Flag.build()}
-		for _, f := range st.flags {
-			flags = append(flags, f)
-		}
-		ctxs := []ldcontext.Context{c.Ctx.build()}
-		g := &gen{r: r.fork(), p: profiles["wellformed"]}
-		for i := 0; i < 3; i++ {
-			w := g.context()
-			ctxs = append(ctxs, w.build())
-		}
-		pairs := []concPair{}
-		for _, f := range flags {
-			for _, cx := range ctxs {
-				pairs = append(pairs, concPair{f, cx})
+		// Two independent builds of the same configuration: the sequential baseline runs on one,
+		// the goroutines on the other, so that nothing the library might cache lazily on shared
+		// values is already warm when the concurrent phase starts.
+		mk := func() (evaluation.Evaluator, []concPair) {
+			st := buildStore(&c.Store)
+			ps := &pureStore{flags: st.flags, segments: st.segments}
+			var options []evaluation.EvaluatorOption
+			if c.BS != nil {
+				options = append(options, evaluation.EvaluatorOptionBigSegmentProvider(mkPureBS(c.BS)))
 			}
+			options = append(options, evaluation.EvaluatorOptionErrorLogger(&lockedLogger{}), evaluation.EvaluatorOptionEnableSecondaryKey(c.Opts.Sec))
+			e := evaluation.NewEvaluatorWithOptions(ps, options...)
+			flags := []*ldmodel.FeatureFlag{c.Flag.build()}
+			keys := []string{}
+			for k := range st.flags {
+				keys = append(keys, k)
+			}
+			sortStrings(keys)
+			for _, k := range keys {
+				flags = append(flags, st.flags[k])
+			}
+			rr := newRng(hashStr(c.ID))
+			ctxs := []ldcontext.Context{c.Ctx.build()}
+			gg := &gen{r: rr, p: profiles["wellformed"]}
+			for i := 0; i < 3; i++ {
+				w := gg.context()
+				ctxs = append(ctxs, w.build())
+			}
+			prs := []concPair{}
+			for _, f := range flags {
+				for _, cx := range ctxs {
+					prs = append(prs, concPair{f, cx})
+				}
+			}
+			return e, prs
 		}
+		evSeq, pairsSeq := mk()
+		ev, pairs := mk()
 		baseline := make([]string, len(pairs))
-		for i, p := range pairs {
-			baseline[i] = evalPair(ev, p)
+		for i, p := range pairsSeq {
+			baseline[i] = evalPair(evSeq, p)
 		}
 		seen := map[string]bool{}
 		for _, b := range baseline {
@@ -211,6 +227,43 @@ func concWorkerMain(args []string) {
 		}
 	}
 	fmt.Printf("STATS evaluations=%d distinct=%d rounds=%d\n", evals, distinct, rounds)
+}
+
+// concOperandScenario: hand-built (un-preprocessed) and preprocessed segments and flags whose rules
+// carry operands that need parsing (regex, timestamp, semantic version) and lookup tables, all
+// reached by every goroutine: the shapes on which a lazily filled shared cache would race.
+func concOperandScenario(r *rng, id string) *EvalCase {
+	g := &gen{r: r, p: profiles["wellformed"]}
+	c := &EvalCase{ID: id, Kind: "eval", Opts: WOpts{Log: true, Rec: true}}
+	c.Store.Flags, c.Store.Segments = []WFlag{}, []WSegment{}
+	top := simpleFlag("top", true, 0, 2)
+	top.Form = pick(r, []string{"plain", "pre", "json"})
+	var ctx *WCtx
+	for i := 0; i < 4; i++ {
+		g.forceOps = []string{"matches", "before", "after", "semVerEqual", "semVerLessThan", "semVerGreaterThan", "in"}
+		oc := g.operatorCase(id)
+		cl := oc.Flag.Rules[0].Clauses[0]
+		cl.Neg = false
+		if ctx == nil {
+			ctx = &oc.Ctx
+		}
+		seg := simpleSegment(fmt.Sprintf("cs%d", i))
+		seg.Form = pick(r, []string{"plain", "plain", "pre", "json"})
+		seg.Rules = []WSegRule{{ID: "r", Clauses: []WClause{cl, cl}, By: mkRef("", "")}}
+		seg.Inc = []string{"zz", "a"}
+		c.Store.Segments = append(c.Store.Segments, seg)
+		top.Rules = append(top.Rules, WFlagRule{ID: fmt.Sprintf("r%d", i), VR: WVR{V: ip(1), RO: WRollout{Vars: []WWV{}, By: mkRef("", "")}},
+			Clauses: []WClause{segRefRule(seg.Key).Clauses[0], cl}})
+		pf := simpleFlag(fmt.Sprintf("pf%d", i), true, 0, 2)
+		pf.Form = pick(r, []string{"plain", "pre"})
+		pf.Rules = []WFlagRule{{ID: "pr", VR: WVR{V: ip(0), RO: WRollout{Vars: []WWV{}, By: mkRef("", "")}}, Clauses: []WClause{cl}}}
+		pf.Targets = []WTarget{{Vals: []string{"a", "b"}, V: 0}}
+		c.Store.Flags = append(c.Store.Flags, pf)
+		top.Prereqs = append(top.Prereqs, WPrereq{pf.Key, 0})
+	}
+	c.Ctx = *ctx
+	c.Flag = top
+	return c
 }
 
 func raceEnabledBuild() bool { return raceEnabled }
